@@ -32,7 +32,7 @@ CLAUSES = {
 
 BASE_CONST = {
     "MaxFrames": "16", "Dev_PruneWithoutReap": "TRUE", "Dev_AfterSpawnKillDetached": "TRUE",
-    "Dev_BuiltinIgnoreList": "TRUE", "MaxExt": "0", "MaxFork": "0", "MaxSig": "0", "MaxNow": "9",
+    "Dev_BuiltinIgnoreList": "TRUE", "Dev_AddEmptyNameReturns": "TRUE", "MaxExt": "0", "MaxFork": "0", "MaxSig": "0", "MaxNow": "9",
     "MaxPid": "6", "Reduce": "TRUE", "ReqUntil": "4", "DieUntil": "5", "MaxReq": "1", "MaxDie": "1",
 }
 BASE_SUBST = {"DieStatuses": "st_one", "ObeyChoices": "both", "FaultSeqs": "nofault"}
@@ -119,7 +119,9 @@ PROPS = {
 }
 
 def cfg_text(mcname, prop):
+    from harness import devs
     consts = dict(BASE_CONST)
+    consts.update(devs.devs())
     subst = dict(BASE_SUBST)
     c, s = MC[mcname]
     consts.update(c)
